@@ -90,6 +90,15 @@ def run_case(case):
             elif k == "tr":
                 w.call(c.send_test_req())
                 note_written("session")
+            elif k == "jump":
+                # the application moves the outbound counter far ahead (Journaler.set_seq_num): a long run of numbers
+                # that were never sent - longer than any page a range query might be read in
+                target = n_before + 1203
+                w.j.set_seq_num(session_of(c), next_num_out=target)
+                if num_out(c) != target:
+                    return {"signature": "harness|jump_failed", "clause": "harness", "detail": {"out": num_out(c)}, "replay": {"case": case}}
+                for n in range(n_before, target):
+                    truth[n] = {"kind": "hole"}
             elif k == "relog":
                 # orderly Logout, new connection, Logon: the journal keeps a Logout and a second Logon in the range
                 from asyncfix.connection import ConnectionState
@@ -304,6 +313,11 @@ def cases(quick):
                         for p1 in red:
                             for p2 in red:
                                 out.append((role, slots, awaiting, [p1, p2]))
+    # long ranges: a run of > 1000 unsent numbers between application messages
+    for slots in (("app", "jump", "app"), ("app", "jump", "app", "app"), ("jump", "app", "hb")):
+        last = 1 + len(slots) - 1 + 1203
+        for p in [(1, 0), (2, 0), (2, last - 1), (3, 900), (600, 0), (last, 0), (1, 1), (last - 1, last)]:
+            out.append(("acceptor", slots, False, [p]))
     return out
 
 
